@@ -239,19 +239,41 @@ func c08Chunks(c *vrep.Ctx) {
 	})
 }
 
+// c08LongWords: the first license with ONE run of non-space bytes in its middle that is longer than
+// the usual powers of two by a few hundred bytes (a base64 blob, a minified line): where the read
+// buffer's boundaries fall inside the run depends on the pad width
+func c08LongWords(docs []vDoc) [][]byte {
+	w := strings.Fields(string(docs[0].Bytes))
+	var out [][]byte
+	for _, n := range []int{1500, 2600, 4600, 8700, 16900, 33300, 66000} {
+		var sb strings.Builder
+		for i := 0; sb.Len() < n; i++ {
+			sb.WriteString("QmFzZTY0IGJsb2IgZm9yIHRoZSBwYWQgc3dlZXA"[i%7 : 20+i%13])
+		}
+		mid := len(w) / 2
+		out = append(out, []byte(strings.Join(w[:mid], " ")+"\n"+sb.String()[:n]+" "+strings.Join(w[mid:], " ")+"\n"))
+	}
+	return out
+}
+
 func c08Pads(c *vrep.Ctx) {
 	c08Trace = c.Param("trace", "off") == "all"
 	cl, docs := c08Classifier()
 	inputs := c08Inputs(docs, c.Pick(3, 10))
 	nfull := len(inputs) + 2 // the ordinary inputs and the two truncated ones get every pad width
-	inputs = append(inputs, c08PadExtras(docs)...)
+	extras := c08PadExtras(docs)
+	long := c08LongWords(docs)
+	nfull += len(long) // and so do the texts with one overlong word
+	inputs = append(inputs, extras[:2]...)
+	inputs = append(inputs, long...)
+	inputs = append(inputs, extras[2:]...)
 	if !c.Thorough() {
 		inputs = inputs[:len(inputs)-2] // 55 250 and 65 486 distinct words: thorough tier
 	}
 	// the large-vocabulary inputs get pad widths around the buffer boundaries only
 	fewPads := []int{0, 1, 2, 3, 4, 5, 6, 7, 509, 510, 511, 512, 513, 1017, 1018, 1019, 1020, 1021, 1022, 1023, 1024, 1025, 2040, 2041}
 	maxPad := 2*1024 + 8
-	c.R.Rule = fmt.Sprintf("every pad width 0..%d of leading spaces x %d inputs (incl. one ending in a truncated multi-byte sequence right after the last license word and texts with 206..65 486 distinct words before the license, at 24 pad widths around the buffer boundaries) (so that every multi-byte rune and invalid byte crosses the 1020/1024 buffer boundary in every phase); Match(pad+input) must equal Match(input) in every field; non-trivial = distinct (input, pad) cases whose result has a match", maxPad, len(inputs))
+	c.R.Rule = fmt.Sprintf("every pad width 0..%d of leading spaces x %d inputs (incl. one ending in a truncated multi-byte sequence right after the last license word, the first license with one word of 1500..66 000 bytes in its middle, and texts with 206..65 486 distinct words before the license, at 24 pad widths around the buffer boundaries) (so that every multi-byte rune and invalid byte crosses the 1020/1024 buffer boundary in every phase); Match(pad+input) must equal Match(input) in every field; non-trivial = distinct (input, pad) cases whose result has a match", maxPad, len(inputs))
 	c.Bound("max_pad", maxPad)
 	c.Bound("inputs", len(inputs))
 	want := make([]string, len(inputs))
